@@ -9,6 +9,7 @@ C03 (add => contains), C10 (len == |dom|).
 import re
 from unitlib import AnchorLost, code_mask, match_delim
 import prelude as P
+import dialing_parts
 
 NAME = 'active_peers'
 BACKEND = 'verus'
@@ -411,16 +412,19 @@ impl ActivePeers {
     t += C.fn(CM, W + 'subscribe', 'ActivePeers::subscribe', ['C04'], ret='r', rewrites=[('X5', 'broadcast::Receiver<PeerEvent>', 'Receiver', 1)], sig_rewrites=[('&self', '&mut self')], spec="""
     ensures
         final(self).1@ == old(self).1@ + 1, // @OBL ActivePeers::subscribe::one_critical_section [C04] the whole operation is ONE critical section: exactly one lock acquisition (no check-then-act across two)
+        final(self).0 == old(self).0, // @OBL ActivePeers::subscribe::read_only [C04] a read operation changes nothing in the set
         r.0.start@ == old(self).0.peer_event_sender.log@.len() && r.1@.to_set() =~= old(self).0.connections@.dom() && r.1@.no_duplicates(), // @OBL ActivePeers::subscribe::delegates [C04] subscribe() takes snapshot and receiver under one lock acquisition
 """)
     t += C.fn(CM, W + 'get', 'ActivePeers::get', ['C04', 'C09'], ret='r', sig_rewrites=[('&self', '&mut self')], spec="""
     ensures
         final(self).1@ == old(self).1@ + 1, // @OBL ActivePeers::get::one_critical_section [C04] the whole operation is ONE critical section: exactly one lock acquisition (no check-then-act across two)
+        final(self).0 == old(self).0, // @OBL ActivePeers::get::read_only [C04] a read operation changes nothing in the set
         r == (if old(self).0.connections@.contains_key(*peer_id) { Some(old(self).0.connections@[*peer_id]) } else { None::<Connection> }), // @OBL ActivePeers::get::delegates [C04,C09] get() is the lookup in the locked set
 """)
     t += C.fn(CM, W + 'len', 'ActivePeers::len', ['C04', 'C10'], ret='r', sig_rewrites=[('&self', '&mut self')], spec="""
     ensures
         final(self).1@ == old(self).1@ + 1, // @OBL ActivePeers::len::one_critical_section [C04] the whole operation is ONE critical section: exactly one lock acquisition (no check-then-act across two)
+        final(self).0 == old(self).0, // @OBL ActivePeers::len::read_only [C04] a read operation changes nothing in the set
         r == old(self).0.connections@.dom().len(), // @OBL ActivePeers::len::delegates [C04,C10] len() is the size of the locked set
 """)
     t += C.fn(CM, W + 'remove', 'ActivePeers::remove', ['C04', 'C09'], sig_rewrites=[('&self', '&mut self')], spec="""
@@ -477,14 +481,10 @@ impl DisconnectReason {
         r == reason_of(*error), // @OBL DisconnectReason::from_quinn_error::mapping [C09] every way a connection can end is mapped to its documented reason (total)
 """)
     t += '}\n'
-    t += """
-// ---------- trusted stand-in: tokio::task::JoinSet (only shutdown() is used in the tail) ----------
-pub struct JoinSet;
-impl JoinSet { #[verifier::external_body] pub async fn shutdown(&mut self) { unimplemented!() } }
-"""
+    t += dialing_parts.build(C)
     t += C.lifted('crates/anemo/src/network/request_handler.rs', 'impl InboundRequestHandler :: fn start', 'InboundRequestHandler::start::tail',
                   ['C04', 'C05', 'C09'], anchor='let close_reason = loop', kind='tail', name='inbound_request_handler_start_tail', is_async=True,
-                  params='active_peers: &mut ActivePeers, connection: &Connection, close_reason: ConnectionError, inflight_requests: &mut JoinSet',
+                  params='active_peers: &mut ActivePeers, connection: &Connection, close_reason: ConnectionError, inflight_requests: &mut JoinSet<()>',
                   rewrites=[('X10', 'self.active_peers', 'active_peers', None), dict(rule='X10', pattern='self.connection', repl='connection', optional=True),
                             dict(rule='X5', pattern='crate::types::DisconnectReason', repl='DisconnectReason', optional=True)],
                   spec="""
